@@ -8,7 +8,11 @@ pub use crate::uci::send_to_gui;
 pub use crate::utils::out_of_time;
 use crate::zobrist::ZobristHasher;
 use std::cmp::{max, min, Reverse};
+#[cfg(walleye_verif)]
+use crate::verif_seam::{mpsc, thread};
+#[cfg(not(walleye_verif))]
 use std::sync::mpsc;
+#[cfg(not(walleye_verif))]
 use std::thread;
 #[cfg(walleye_verif)]
 use crate::verif_seam::time::{Duration, Instant};
@@ -29,7 +33,10 @@ const NEG_INF: i32 = -POS_INF;
 */
 const KILLER_MOVE_SCORE: i32 = 25;
 
+#[cfg(not(walleye_verif))]
 type BoardSender = std::sync::mpsc::Sender<BoardState>;
+#[cfg(walleye_verif)]
+type BoardSender = crate::verif_seam::mpsc::Sender<BoardState>;
 
 /*
     Capture extension, only search captures from here on to
